@@ -154,6 +154,8 @@ def step_rules(rep, prog, marker, com, rev):
               "the test inside the pass is %s, not whether labels[w, y] is an edge" % (fmt(ab(tests[0].term))[:80] if tests else "missing"))
     if okt:
         T0 = tests[0].term
+        while isinstance(T0, tuple) and len(T0) == 3 and T0[0] == "unop" and T0[1] == "not":
+            T0 = T0[2]                      # path conditions are recorded without leading `not` (the polarity carries it)
 
         def branch(st, not_parent):
             for cnd, pol in st.path:
